@@ -1,7 +1,7 @@
 #!/bin/bash
 # Runs every seeded change against the check of its property (quick tier; meta.json "checked_by" names further checks to run) and
-# writes seeded/MATRIX.md.  Uses /repo itself (apply, check, restore): run it only when nothing else uses /repo.
-cd /verif
+# writes seeded/MATRIX.md.  Each change is applied to a scratch worktree of /repo HEAD (tools/try_mutant_par.sh); /repo is not touched.
+cd "$(dirname "$0")/.."
 out=seeded/MATRIX.md
 echo "| seeded change | property | what it needs to manifest | check result (quick tier) |" > $out
 echo "|---|---|---|---|" >> $out
@@ -14,7 +14,7 @@ for d in seeded/*/; do
   else
     res=""
     for c in $p $(python3 -c "import json;print(' '.join(json.load(open('$d/meta.json')).get('checked_by',[])))"); do
-      r=$(tools/try_mutant.sh $m $c quick 2>&1 | tail -1)
+      r=$(tools/try_mutant_par.sh $m $c quick 2>&1 | tail -1)
       case "$r" in *rc=1*) res="$res caught: $c exits 1 with a VIOLATION and replay file;";; *rc=0*) res="$res not reported by $c;";; *) res="$res no verdict from $c ($r);";; esac
     done
     note=$(python3 -c "import json;print(json.load(open('$d/meta.json')).get('matrix_note','').replace('|','/'))")
